@@ -526,6 +526,8 @@ class PolarsSem:
                 return S.int_to_str(c)
             if src == BOOL:
                 return Cell(STR, c.null, K.If(c.val, z3.StringVal("true"), z3.StringVal("false")))
+            if src == REAL:
+                return S.real_to_str(c)
             raise Unsupported("float -> string")
         if tgt == BOOL:
             if src == INT:
@@ -618,6 +620,14 @@ class PolarsSem:
             raise Unsupported("sum_horizontal")
         if fname == "Boolean":
             return self.boolean_fn(f["Boolean"], args, ctx)
+        if fname == "Replace":
+            # value replacement: elements equal to `old` become `new`
+            x, old_, new_ = args
+            out = []
+            for i in range(n):
+                hit = K.is_true(K.compare("==", x[i], old_[i]))
+                out.append(K.c_ite(hit, new_[i], x[i]))
+            return out
         if fname == "ShiftAndFill":
             by = self._const_int(v["input"][1])
             fill = args[2] if len(args) > 2 else None
